@@ -116,7 +116,7 @@ def assert_constraints(weights,
     right = tf.gather_nd(weights, [[j] for (i, j) in monotonicities])
     asserts.append(
         tf.Assert(
-            tf.reduce_min(left - right) < eps,
+            tf.reduce_max(left - right) <= eps,
             data=["Monotonicity violation.", "monotonicities:", monotonicities]
             + info,
             summarize=num_buckets))
